@@ -90,9 +90,13 @@ async def explore(tier, seed, m, v):
         coerced_log = []
         custom = si % 3 == 1
         stamping = si % 3 == 2
+        returned_log = []
         async def my_coercer(exception, error):
             coerced_log.append(dict(error))
-            return {"message": "rewritten: " + str(error.get("message")), "path": error.get("path"), "locations": error.get("locations"), "tag": len(coerced_log)}
+            out = {"message": "rewritten: " + str(error.get("message")), "path": error.get("path"), "locations": error.get("locations"), "tag": len(coerced_log)}
+            if len(coerced_log) % 4 == 0: out = {}          # whatever the coercer returns - an EMPTY object too - is what appears
+            returned_log.append(out)
+            return out
         stamp_no = [0]
         async def stamping_coercer(exception, error):
             # enriches the error IN PLACE (the documented way): what it writes belongs to this error only
@@ -128,7 +132,7 @@ async def explore(tier, seed, m, v):
                 import re as _re
                 q = _re.sub(r"(query|mutation) Op\d+", lambda mm: mm.group(1), q); opn = None; kind = "anonymous-multi"
             if rng.random() < 0.15 and isinstance(q, str): q = q.encode("utf-8"); kind += "+bytes"
-            coerced_log.clear()
+            coerced_log.clear(); returned_log.clear()
             stats["evaluations"] += 1
             stats["kinds"][kind] = stats["kinds"].get(kind, 0) + 1
             try:
@@ -151,8 +155,9 @@ async def explore(tier, seed, m, v):
                 n = len(resp.get("errors") or [])
                 stats["coercer_calls_checked"] += 1
                 if len(coerced_log) != n: pr.append(f"error coercer awaited {len(coerced_log)} times for {n} reported errors")
-                for e in resp.get("errors") or []:
-                    if not (isinstance(e, dict) and str(e.get("message", "")).startswith("rewritten: ") and "tag" in e): pr.append("an error entry did not come from the error coercer")
+                key_ = lambda x: json.dumps(x, sort_keys=True, default=str)
+                if sorted(map(key_, resp.get("errors") or [])) != sorted(map(key_, returned_log)):
+                    pr.append("the entries of `errors` are not the values the error coercer returned (one of them an empty object)")
                 if "errors" in resp and not resp["errors"]: pr.append("`errors` present but empty")
             # syntax errors / failed operation selection: data null and nothing ran
             try:
